@@ -2,7 +2,7 @@
 from __future__ import annotations
 import ast, re
 from .cfg import CFG, header_exprs
-from .frontend import src, walk_no_nested
+from .frontend import src, walk_no_nested, AnalysisError
 
 
 def _stmt_of(n):
@@ -709,3 +709,162 @@ def selection_mask_misuse(prog, rule, rels=None):
                 n_sites += 1
                 rule.ok(f.qualname, 'the mask %s over %s[%s] is combined with the selection again, not applied to %s as a whole' % (name, cont, idx, cont), f, st)
     return n_sites
+
+
+def index_space(prog, rule, rels, chem_rel='thermosteam/_chemicals.py'):
+    """Positions handed out by CompiledChemicals (get_vle_indices, get_lle_indices, _light_indices, ...) are positions in the FULL chemical
+    tuple: compile() builds them as [index[i.ID] for i in <sub-list>].  The sub-lists themselves (vle_chemicals, lle_chemicals, ...) and
+    everything gathered with such positions (mol[index], [chems[i] for i in index]) are SHORTER sequences in another order of positions.
+    Subscripting one of those with full positions picks the wrong chemicals (or raises).  Both tables are read from compile(); every
+    gather with full positions in the modules `rels` is an instance, a gather whose base is a sub-sequence is a finding."""
+    cc = prog.cls('CompiledChemicals', chem_rel)
+    subseq, fullidx = set(), set()
+    for comp in cc.methods.values():       # the method that fills the instance dictionary (today: _compile)
+        sub_lists = set()      # its locals filled by .append inside a loop (sub-lists of the chemicals)
+        for n in walk_no_nested(comp.node):
+            if isinstance(n, ast.For):
+                for c in ast.walk(n):
+                    if isinstance(c, ast.Call) and isinstance(c.func, ast.Attribute) and c.func.attr == 'append' and isinstance(c.func.value, ast.Name):
+                        sub_lists.add(c.func.value.id)
+        for n in walk_no_nested(comp.node):
+            if isinstance(n, ast.Assign) and len(n.targets) == 1 and isinstance(n.targets[0], ast.Subscript) \
+                    and isinstance(n.targets[0].slice, ast.Constant) and isinstance(n.targets[0].slice.value, str):
+                name, v = n.targets[0].slice.value, n.value
+                if isinstance(v, ast.Call) and len(v.args) == 1 and isinstance(v.args[0], ast.Name) and v.args[0].id in sub_lists:
+                    subseq.add(name)
+                if isinstance(v, ast.ListComp) and len(v.generators) == 1 and isinstance(v.generators[0].iter, ast.Name) \
+                        and v.generators[0].iter.id in sub_lists and isinstance(v.elt, ast.Subscript):
+                    fullidx.add(name)
+    if len(subseq) < 2 or len(fullidx) < 2:
+        raise AnalysisError('CompiledChemicals.compile: sub-sequences / position tables not recognised (%s / %s)' % (sorted(subseq), sorted(fullidx)))
+    producers = set()      # methods returning a selection of one of the position tables
+    for m in cc.methods.values():
+        rets = [r for r in walk_no_nested(m.node) if isinstance(r, ast.Return) and r.value is not None]
+        if rets and all(isinstance(r.value, ast.ListComp) and len(r.value.generators) == 1 and isinstance(r.value.generators[0].iter, ast.Attribute)
+                        and r.value.generators[0].iter.attr in fullidx and isinstance(r.value.elt, ast.Name)
+                        and isinstance(r.value.generators[0].target, ast.Name) and r.value.elt.id == r.value.generators[0].target.id for r in rets):
+            producers.add(m.name)
+
+    def is_full_positions(e, idx_names, idx_attrs):
+        if isinstance(e, ast.Call) and isinstance(e.func, ast.Attribute) and e.func.attr in producers:
+            return True
+        if isinstance(e, ast.Attribute) and (e.attr in fullidx or src(e) in idx_attrs):
+            return True
+        if isinstance(e, ast.Name) and e.id in idx_names:
+            return True
+        if isinstance(e, ast.IfExp):
+            # positions if recomputed else self._kept: the kept attribute is typed through its own assignments (validated below)
+            arms = [e.body, e.orelse]
+            full = [is_full_positions(a_, idx_names, idx_attrs) for a_ in arms]
+            return any(full) and all(fl or (isinstance(a_, ast.Attribute) and isinstance(a_.value, ast.Name) and a_.value.id == 'self' and src(a_) not in banned)
+                                     for fl, a_ in zip(full, arms))
+        return False
+    banned = set()
+    n_inst = 0
+    by_cls = {}
+    for f in prog.all_functions():
+        if f.module.rel not in rels:
+            continue
+        # attributes of self that hold full positions (assigned from them anywhere in the class)
+        fams = list(f.cls.methods.values()) if f.cls is not None else [f]
+        ck = id(f.cls) if f.cls is not None else id(f)
+        banned.clear()         # per class
+        while ck not in by_cls:
+            idx_attrs = set()
+            grew = True
+            idx_by_fn = {}
+            while grew:
+                grew = False
+                for g in fams:
+                    names = idx_by_fn.setdefault(id(g), set())
+                    for n in walk_no_nested(g.node):
+                        if isinstance(n, ast.Assign) and is_full_positions(n.value, names, idx_attrs):
+                            for t in n.targets:
+                                for x in ([t] if not isinstance(t, ast.Tuple) else []):
+                                    if isinstance(x, ast.Name) and x.id not in names:
+                                        names.add(x.id)
+                                        grew = True
+                                    if isinstance(x, ast.Attribute) and isinstance(x.value, ast.Name) and x.value.id == 'self' and src(x) not in idx_attrs \
+                                            and src(x) not in banned:
+                                        idx_attrs.add(src(x))
+                                        grew = True
+            # an attribute holds full positions only if EVERY assignment of it in the class does (None = nothing remembered yet)
+            wrong = set()
+            for g in fams:
+                for n in walk_no_nested(g.node):
+                    if isinstance(n, ast.Assign):
+                        for t in n.targets:
+                            if isinstance(t, ast.Attribute) and src(t) in idx_attrs and not (
+                                    is_full_positions(n.value, idx_by_fn.get(id(g), set()), idx_attrs)
+                                    or (isinstance(n.value, ast.Constant) and n.value.value is None)
+                                    or (isinstance(n.value, (ast.Tuple, ast.List)) and not n.value.elts)):
+                                wrong.add(src(t))
+            if not wrong:
+                by_cls[ck] = (idx_attrs, idx_by_fn, set(banned))
+                break
+            banned |= wrong
+        idx_attrs, idx_by_fn, bn = by_cls[ck]
+        banned.clear()
+        banned.update(bn)
+        idx_names = idx_by_fn.get(id(f), set())
+        # a name that is also bound to something else in this function is not typed
+        for n in walk_no_nested(f.node):
+            if isinstance(n, ast.Assign):
+                for t in n.targets:
+                    if isinstance(t, ast.Name) and t.id in idx_names and not is_full_positions(n.value, idx_names, idx_attrs):
+                        idx_names = idx_names - {t.id}
+        if not idx_names and not idx_attrs:
+            continue
+        alias = {}         # name -> every value bound to it in this function (None: a binding whose value is not an expression of its own)
+        for n in walk_no_nested(f.node):
+            if isinstance(n, ast.Assign):
+                for t in n.targets:
+                    if isinstance(t, ast.Name):
+                        alias.setdefault(t.id, []).append(n.value)
+                    else:
+                        for x in ast.walk(t):
+                            if isinstance(x, ast.Name) and isinstance(x.ctx, ast.Store):
+                                alias.setdefault(x.id, []).append(None)
+            elif isinstance(n, ast.Name) and isinstance(n.ctx, ast.Store) and not isinstance(getattr(n, '_parent', None), ast.Assign):
+                alias.setdefault(n.id, []).append(None)
+        for a_ in f.params:
+            alias.setdefault(a_, []).append(None)
+
+        def sub_base(b, depth=0):
+            """the reason `b` is a shorter sequence than the full tuple, or None"""
+            if isinstance(b, ast.Attribute) and b.attr in subseq:
+                return '%s is the sub-sequence %s built by compile()' % (src(b), b.attr)
+            if isinstance(b, ast.Name) and depth < 3 and b.id in alias:
+                why = [v is not None and (gathered(v) or sub_base(v, depth + 1)) for v in alias[b.id]]
+                if why and all(why):
+                    return '%s = %s: %s' % (b.id, src(alias[b.id][0]), why[0])
+            return None
+
+        def gathered(v):
+            if isinstance(v, ast.Subscript) and is_full_positions(v.slice, idx_names, idx_attrs):
+                return 'gathered with full positions'
+            if isinstance(v, ast.ListComp) and len(v.generators) == 1 and is_full_positions(v.generators[0].iter, idx_names, idx_attrs) \
+                    and isinstance(v.elt, ast.Subscript) and isinstance(v.generators[0].target, ast.Name) \
+                    and isinstance(v.elt.slice, ast.Name) and v.elt.slice.id == v.generators[0].target.id:
+                return 'gathered with full positions'
+            return None
+        for n in ast.walk(f.node):
+            gathers = []
+            if isinstance(n, ast.Subscript) and is_full_positions(n.slice, idx_names, idx_attrs):
+                gathers.append(n)
+            if isinstance(n, (ast.ListComp, ast.GeneratorExp, ast.SetComp)):
+                for gen in n.generators:
+                    if is_full_positions(gen.iter, idx_names, idx_attrs) and isinstance(gen.target, ast.Name):
+                        for s_ in ast.walk(n.elt):
+                            if isinstance(s_, ast.Subscript) and isinstance(s_.slice, ast.Name) and s_.slice.id == gen.target.id:
+                                gathers.append(s_)
+            for s_ in gathers:
+                n_inst += 1
+                why = sub_base(s_.value)
+                cons = f.qualname
+                if why:
+                    rule.fail(cons, 'full-positions-into-sub-sequence', '%s is subscripted with positions in the full chemical tuple, but %s: the positions '
+                              'select other chemicals (or run past the end)' % (src(s_.value), why), f, s_)
+                else:
+                    rule.ok(cons, '%s[...] gathered with full positions: base is not a sub-sequence' % src(s_.value), f, s_)
+    return n_inst, sorted(subseq), sorted(fullidx), sorted(producers)
